@@ -36,6 +36,21 @@ RetStep ==
                       E.dpsum2[l] = LevelDiffSum(samples, l - 1) /\ E.finesum2[l] = LevelFineSum(samples, l - 1)>>,
                 <<"PriceIsSumOfLevelMeans", E.bad # 0 \/ E.price_scaled = ScaledPrice(samples, E.Nl, E.prodN)>> >>)
     /\ ln' = ln + 1 /\ UNCHANGED <<tid, fin, samples>>
+Sample2Step ==
+    /\ More /\ E.e = "Sample2"
+    /\ Judge(<< <<"Numeric", E.bad = 0>>,
+                <<"PayoffOfItsOwnPaths", E.bad # 0 \/ (E.T = 1 /\ <<E.pay4[1], E.pay4[2]>> = Payoffs2(H.payoff, H.K, H.und, E))>>,
+                <<"CoarseZeroAtLevelZero", E.bad # 0 \/ (E.coupled <=> E.lvl > 0)>>,
+                <<"SampleStoredOnce", \A i \in 1..Len(samples) : ~(samples[i].lvl = E.lvl /\ samples[i].idx = E.idx)>> >>)
+    /\ samples' = Append(samples, E)
+    /\ ln' = ln + 1 /\ UNCHANGED <<tid, fin>>
+Ret2Step ==
+    /\ More /\ E.e = "Ret2"
+    /\ Judge(<< <<"Numeric", E.bad = 0>>,
+                <<"NlExact", IndexedOnce(samples, E.Nl) /\ Len(samples) = SumSeq(E.Nl)>>,
+                <<"LevelMeansOverItsOwnSamples", E.bad # 0 \/ \A l \in 1..Len(E.Nl) : E.dpsum4[l] = LevelDiffSum4(samples, l - 1)>>,
+                <<"PriceIsSumOfLevelMeans", E.bad # 0 \/ E.price_scaled = ScaledPrice4(samples, E.Nl, E.prodN)>> >>)
+    /\ ln' = ln + 1 /\ UNCHANGED <<tid, fin, samples>>
 RaiseStep ==
     /\ More /\ E.e = "Raise"
     /\ PrintT(<<"REJECT", Id, ln, "Raise", H.kind>>)
@@ -44,6 +59,6 @@ Finish ==
     /\ ~fin /\ ln = Len(T) + 1
     /\ IF bad = 0 THEN PrintT(<<"ACCEPT", Id>>) ELSE TRUE
     /\ fin' = TRUE /\ UNCHANGED <<tid, ln, bad, samples>>
-TraceNext == SampleStep \/ RetStep \/ RaiseStep \/ Finish
+TraceNext == SampleStep \/ RetStep \/ Sample2Step \/ Ret2Step \/ RaiseStep \/ Finish
 TraceSpec == TraceInit /\ [][TraceNext]_tvars
 =============================================================================
